@@ -1,5 +1,6 @@
 import Ptn.C16.TreeLemmas
 import Ptn.C16.TtndoTrace
+import Ptn.C16.TtndoTop
 /-! Property theorems for C16. Only property theorems and non-vacuity examples live here. -/
 namespace Ptn.C16
 
@@ -164,5 +165,30 @@ example : Ttndo.traceTtndo (Ttndo.ttndoNetK (Ttndo.ketTree (.node 0 [.node 1 [],
     some ⟨[], [Ptn.C04.physPair 3, Ptn.C04.ketEdge 1 3, Ptn.C04.physPair 5, Ptn.C04.ketEdge 1 5,
                Ptn.C04.braEdge 1 3, Ptn.C04.braEdge 1 5, Ptn.C04.physPair 1,
                (Ttndo.rootKetLeg, .gKet 1 0), (Ttndo.rootBraLeg, .gBra 1 0)]⟩ := by decide
+
+open Ptn.C04 in
+/-- **`ttndo_ttno_expectation_value` computes the closed graph of `<psi|O|psi>` through the root.**  For every
+state tree and every TTNO on it with arbitrary, independent child orders (`opKids k` any permutation of the
+children of the ket node `k`): the loop over the ket nodes except the copy of the root (identifier maps
+`reverse_ket_id` for the operator, `ket_to_bra_id` for the bra), `_contract_ttno_root` (resp.
+`_single_site_contraction` for a single node) and `_contract_final_block` never raise and leave NO free leg;
+the bound pairs are, as unordered pairs up to order: for every node the operator's INPUT leg with the ket
+copy's physical leg and its OUTPUT leg with the bra copy's, for every edge the ket, operator and bra pairs,
+and the two root-bond legs bound to the root tensor. -/
+theorem ttndo_ttno_graph (t : Ptn.C04.Tree) (hnd : t.ids.Nodup) (opKids : Nat → List Nat)
+    (hperm : ∀ e ∈ Ptn.C04.Tree.info none (Ttndo.ketTree t), (opKids e.1).Perm e.2.2) :
+    ∃ binds, Ttndo.ttndoTtnoExpectationValue (Ttndo.ttndoNetK (Ttndo.ketTree t))
+        (Ttndo.ttnoNetK (Ttndo.ketTree t) opKids) = some ⟨[], binds⟩ ∧
+      (unord binds).Perm (unord (soSpec (Ttndo.ketTree t) ++
+        [(Ttndo.rootKetLeg, Leg.gKet (Ttndo.ketTree t).id 0), (Ttndo.rootBraLeg, Leg.gBra (Ttndo.ketTree t).id 0)])) := by
+  obtain ⟨h1, h2⟩ := Ttndo.ketTree_wf t hnd
+  exact ⟨_, Ttndo.ttndoTtno_eq (Ttndo.ketTree t) opKids h1 h2 hperm, Ttndo.teBinds_perm _⟩
+
+example : Ttndo.ttndoTtnoExpectationValue (Ttndo.ttndoNetK (Ttndo.ketTree (.node 0 [.node 1 [], .node 2 []])))
+    (Ttndo.ttnoNetK (Ttndo.ketTree (.node 0 [.node 1 [], .node 2 []])) (fun k => if k = 1 then [5, 3] else [])) =
+    some ⟨[], Ttndo.teBinds (Ttndo.ketTree (.node 0 [.node 1 [], .node 2 []]))⟩ := by decide
+
+example : ∀ e ∈ Ptn.C04.Tree.info none (Ttndo.ketTree (.node 0 [.node 1 [], .node 2 []])),
+    ((fun k => if k = 1 then [5, 3] else []) e.1).Perm e.2.2 := by decide
 
 end Ptn.C16
